@@ -67,8 +67,8 @@ Definition wf_lit (l : strlit) : bool :=
 Inductive iname := NNone | NDot | NId (id : bytes).
 Record ispec := mkspec { sp_name : iname; sp_mid : list triv; sp_path : strlit }.
 
-Definition wf_ident (id : bytes) : bool := negb (is_nil_b id) && forallb is_ident id
-with is_nil_b (d : bytes) : bool := match d with [] => true | _ => false end.
+Definition is_nil_b (d : bytes) : bool := match d with [] => true | _ => false end.
+Definition wf_ident (id : bytes) : bool := negb (is_nil_b id) && forallb is_ident id.
 
 Definition render_name (n : iname) : bytes :=
   match n with NNone => [] | NDot => [DOTB] | NId id => id end.
